@@ -24,7 +24,7 @@ the world, every agent's `message`, `receiving_state`, the reward dict.  `specBC
   the pending messages and the old one; nobody else's message changes; an agent that is not a broadcaster has no
   `message` key and reading changes nothing;
 * **rewards** read-and-reset; `get_done` is `False`; `get_all_done` is the tolerance test on the stored messages, computed
-  exactly;
+  exactly, with a grey zone of `bound` around the boundary (`doneAccepted`);
 * a call that raises ends the trace, and: a `step` whose items are points of the declared action spaces, in a world of
   the invariant on a configuration satisfying `cfgHypb`, does not raise (`stepMustNotRaise`); `get_obs` /
   `get_reward` of an agent of the simulation after a reset do not raise; `get_done` never raises; `get_all_done` raises
@@ -116,6 +116,17 @@ def slotsOK (cfg : Cfg) (n : Nat) (a : Aid) (rf : List (Aid × Rat)) (slots : Li
        | some (k, _) => p.2.1.contains (.entry k)
        | none => p.2.1.contains .zero && (p.2.2 == 0))
 
+/-- `get_all_done` is the tolerance test on the stored messages; the code evaluates `|m − average| ≤ tolerance` in
+floating point, the judge exactly, so an answer is accepted when it is the exact one **or** the decision lies within
+`bound` of the boundary: `True` needs every distance `≤ tolerance + bound`, `False` needs some distance
+`> tolerance − bound`.  (Decimal inputs do sit exactly ON the boundary: messages 0.5 and 0.3 with tolerance 0.1 as
+doubles give `|0.5 − 0.4| = 0.1` exactly in the rationals, and `False` in float64.) -/
+def doneAccepted (cfg : Cfg) (ms : List Rat) (res : BRes) : Bool :=
+  match res with
+  | .bool true => allDoneWith cfg bound ms
+  | .bool false => !allDoneWith cfg (-bound) ms
+  | _ => false
+
 /-- one entry, given what could be seen before the call -/
 def judge1 (cfg : Cfg) (w0 : World) (j : BEntry) (op : BOp) (e : BEntry) : Bool :=
   match e.res with
@@ -171,7 +182,7 @@ def judge1 (cfg : Cfg) (w0 : World) (j : BEntry) (op : BOp) (e : BEntry) : Bool 
     | .allDone =>
       (e.w == j.w) && (e.msgs == j.msgs) && (e.recv == j.recv) && (e.rewards == j.rewards) &&
       (match (bcasters cfg j.w.n).mapM (fun b => j.msgs.getD b none) with
-       | some ms => res == .bool (allDoneOn cfg ms)
+       | some ms => doneAccepted cfg ms res
        | none => false)
 
 def specFrom (cfg : Cfg) (w0 : World) : BEntry → List (BOp × BEntry) → Bool
